@@ -69,8 +69,8 @@ impl StackPointerOffset {
             IntermediateOffset::Bottom => StackPointerOffset::Bottom,
             IntermediateOffset::Value(value) => StackPointerOffset::Value(
                 value
-                    .value_u64()
-                    .ok_or_else(|| Error::Analysis("Stack pointer was not u64".to_string()))?
+                    .value_i64()
+                    .ok_or_else(|| Error::Analysis("Stack pointer was not i64".to_string()))?
                     as isize,
             ),
         })
